@@ -536,6 +536,7 @@ def toySem : Sem Bool Nat Bool where
   isNone := fun t => !t
   keyMarks := fun _ t => t
   anyMarked := fun _ t => t
+  reads := fun e _ => e
 
 def toyCov (t : Bool) (a b : Nat) : Prop := t = true ∨ a = b
 
